@@ -36,7 +36,7 @@ EXTENDS Naturals, Sequences, FiniteSets, SequencesExt, TLC, Json
 
 CONSTANTS Abis,        \* subset of {"x64-elf","x64-pe","ia32-pe","arm64-elf","mips32-elf"}
           MaxUses,     \* 1..3
-          Cat,         \* "full" | "core": use catalogue
+          Cat,         \* "full" | "core" | "got": use catalogue
           MapNames,    \* subset of the names of ReqsOf
           WithPatch,   \* BOOLEAN: uses created by a patch inserted in the same apply()
           Emit         \* BOOLEAN: print cases
@@ -281,7 +281,16 @@ GotUses(abi) ==
   ELSE {U("icallg", "A", "", 0, {"GOT", "PCREL"}, "ir"), U("ijmpg", "A", "", 0, {"GOT", "PCREL"}, "ir"),
         U("ijmp", "A", "", 0, {}, "ir")}
 
-UseSet(abi) == (IF Cat = "full" THEN FullUses(abi) ELSE CoreUses(abi)) \cup PatchUses(abi) \cup GotUses(abi)
+\* catalogue "got": the indirect-through-GOT transfers, their direct counterparts and the
+\* register-indirect control, so that every pair of them occurs in one module
+GotCat(abi) ==
+  {U(k, s, "", 0, {"GOT", "PCREL"}, "ir") : k \in GotKinds, s \in {"A", "X"}}
+  \cup {U("ijmp", s, "", 0, {}, "ir") : s \in {"A", "X"}}
+  \cup {U(k, "A", "", 0, {}, "ir") : k \in {"jmp", "call"}}
+
+UseSet(abi) ==
+  IF Cat = "got" THEN GotCat(abi)
+  ELSE (IF Cat = "full" THEN FullUses(abi) ELSE CoreUses(abi)) \cup PatchUses(abi) \cup GotUses(abi)
 CatSeq(abi) == SetToSeq(UseSet(abi))
 
 ReqsOf(name) ==
